@@ -274,6 +274,11 @@ type Spec struct {
 	Visit func(pkg *packages.Package, n ast.Node, st *State)
 	// AssumeNonNil marks calls whose (single) result is to be assumed non-nil ("what if this failed / panicked").
 	AssumeNonNil func(pkg *packages.Package, call *ast.CallExpr) bool
+	// LoopTags optionally returns tags that hold once a range loop has completed (the rule inspects the
+	// loop's shape, e.g. "every element is re-sent"); they are added on the loop's exit edge.
+	LoopTags func(pkg *packages.Package, rs *ast.RangeStmt) []Tag
+	// StmtTags optionally returns tags for send statements.
+	StmtTags func(pkg *packages.Package, s ast.Stmt) []Tag
 	// Contradict lists pairs of tags that cannot both hold: a state establishing both on every path is infeasible.
 	Contradict [][2]Tag
 	// Split lists tags on which states are partitioned (trace partitioning): paths that differ in
@@ -409,24 +414,25 @@ func inter(a, b map[Tag]bool) map[Tag]bool {
 }
 
 type runner struct {
-	sp      *Spec
-	pkg     *packages.Package
-	info    *types.Info
-	ftype   *ast.FuncType
-	depth   int
-	results []types.Object // named results (nil entries when unnamed)
-	nres    int
-	errIdx  int
-	caseTag map[ast.Expr]ast.Expr // case value -> switch tag (nil tag: boolean switch)
-	loops   map[ast.Node]bool
-	origins map[*ast.CallExpr]*Origin
-	record  bool
-	res     *Result
-	inLoop  map[*cfg.Block]bool
+	sp         *Spec
+	pkg        *packages.Package
+	info       *types.Info
+	ftype      *ast.FuncType
+	depth      int
+	results    []types.Object // named results (nil entries when unnamed)
+	nres       int
+	errIdx     int
+	caseTag    map[ast.Expr]ast.Expr // case value -> switch tag (nil tag: boolean switch)
+	selectComm map[ast.Stmt]bool     // communication statements of select clauses (conditional)
+	loops      map[ast.Node]bool
+	origins    map[*ast.CallExpr]*Origin
+	record     bool
+	res        *Result
+	inLoop     map[*cfg.Block]bool
 }
 
 func (sp *Spec) run(pkg *packages.Package, ft *ast.FuncType, body *ast.BlockStmt, g *cfg.CFG, depth int, init *State) *Result {
-	r := &runner{sp: sp, pkg: pkg, info: pkg.TypesInfo, ftype: ft, depth: depth, caseTag: map[ast.Expr]ast.Expr{}, origins: map[*ast.CallExpr]*Origin{}, res: &Result{}, errIdx: -1}
+	r := &runner{sp: sp, pkg: pkg, info: pkg.TypesInfo, ftype: ft, depth: depth, caseTag: map[ast.Expr]ast.Expr{}, selectComm: map[ast.Stmt]bool{}, origins: map[*ast.CallExpr]*Origin{}, res: &Result{}, errIdx: -1}
 	if ft.Results != nil {
 		i := 0
 		for _, fld := range ft.Results.List {
@@ -456,6 +462,12 @@ func (sp *Spec) run(pkg *packages.Package, ft *ast.FuncType, body *ast.BlockStmt
 			for _, c := range x.Body.List {
 				for _, e := range c.(*ast.CaseClause).List {
 					r.caseTag[e] = x.Tag
+				}
+			}
+		case *ast.SelectStmt:
+			for _, c := range x.Body.List {
+				if cc := c.(*ast.CommClause); cc.Comm != nil {
+					r.selectComm[cc.Comm] = true
 				}
 			}
 		}
@@ -541,7 +553,8 @@ func (sp *Spec) run(pkg *packages.Package, ft *ast.FuncType, body *ast.BlockStmt
 			if len(b.Succs) == 0 && outs != nil {
 				// fell off the end or panicked: a block that ends without return in a function
 				// that has no results is an implicit return.
-				if endsWithReturn(b) || r.endsInNoReturn(b) {
+				if endsWithReturn(b) || r.endsInNoReturn(b) || b.Kind == cfg.KindSelectAfterCase || b.Kind == cfg.KindUnreachable {
+					// the block after the last case of a select without default is never executed
 					continue
 				}
 				if outs[0] != nil {
@@ -638,7 +651,15 @@ func (r *runner) block(b *cfg.Block, st *State) []*State {
 		return []*State{st}
 	}
 	if cond == nil {
-		return []*State{st, st.copy()}
+		done := st.copy()
+		if b.Kind == cfg.KindRangeLoop && r.sp.LoopTags != nil {
+			if rs, ok := b.Stmt.(*ast.RangeStmt); ok {
+				for _, t := range r.sp.LoopTags(r.pkg, rs) {
+					r.addTag(done, t)
+				}
+			}
+		}
+		return []*State{st, done}
 	}
 	r.evalExpr(b, cond, st)
 	if _, isCase := r.caseTag[cond]; !isCase {
@@ -925,6 +946,11 @@ func (r *runner) node(b *cfg.Block, n ast.Node, st *State) {
 	case *ast.SendStmt:
 		r.evalExpr(b, x.Chan, st)
 		r.evalExpr(b, x.Value, st)
+		if r.sp.StmtTags != nil && !r.selectComm[x] {
+			for _, t := range r.sp.StmtTags(r.pkg, x) {
+				r.addTag(st, t)
+			}
+		}
 	case *ast.RangeStmt, *ast.EmptyStmt, *ast.LabeledStmt, *ast.BranchStmt:
 	case ast.Expr:
 		r.evalExpr(b, x, st)
